@@ -1,0 +1,183 @@
+//go:build verif
+
+// Package vhook provides verification hooks. With the "verif" build tag the
+// hooks record events, inject crashes and gate goroutines as directed by a
+// test harness; nothing happens unless a harness (or the environment
+// variables VERIF_TRACE / VERIF_CRASH) asks for it.
+package vhook
+
+import (
+	"encoding/json"
+	"fmt"
+	"os"
+	"reflect"
+	"strconv"
+	"strings"
+	"sync"
+	"sync/atomic"
+)
+
+// Enabled reports whether verification hooks are compiled in.
+const Enabled = true
+
+// Event is one recorded event.
+type Event struct {
+	Seq  uint64
+	Inst string
+	Ev   string
+	KV   map[string]any
+}
+
+var (
+	mu      sync.Mutex
+	seq     uint64
+	out     *os.File
+	sink    func(Event)
+	active  atomic.Bool
+	names   = map[any]string{}
+	nameN   int
+	gateFn  atomic.Value // func(point string, kv ...any)
+	failFn  atomic.Value // func(point string) bool
+	crashAt string
+	crashK  int
+	crashN  int
+	crashFn func(point string)
+)
+
+func init() {
+	if p := os.Getenv("VERIF_TRACE"); p != "" {
+		f, err := os.OpenFile(p, os.O_CREATE|os.O_WRONLY|os.O_APPEND, 0644)
+		if err == nil {
+			out = f
+			active.Store(true)
+		}
+	}
+	if c := os.Getenv("VERIF_CRASH"); c != "" {
+		crashAt, crashK = c, 1
+		if i := strings.LastIndex(c, "#"); i >= 0 {
+			crashAt = c[:i]
+			crashK, _ = strconv.Atoi(c[i+1:])
+		}
+	}
+}
+
+// SetSink installs an in-process event sink (nil removes it).
+func SetSink(f func(Event)) {
+	mu.Lock()
+	sink = f
+	active.Store(f != nil || out != nil)
+	mu.Unlock()
+}
+
+// SetGate installs a gate function (nil removes it).
+func SetGate(f func(point string, kv ...any)) {
+	gateFn.Store(f)
+}
+
+// SetFail installs a fault-injection oracle (nil removes it).
+func SetFail(f func(point string) bool) {
+	failFn.Store(f)
+}
+
+// SetCrash arms a crash at the k-th arrival at point. If fn is nil the
+// process exits with status 86.
+func SetCrash(point string, k int, fn func(point string)) {
+	mu.Lock()
+	crashAt, crashK, crashN, crashFn = point, k, 0, fn
+	mu.Unlock()
+}
+
+// Name gives an instance a stable name in the trace.
+func Name(inst any, name string) {
+	mu.Lock()
+	names[inst] = name
+	mu.Unlock()
+}
+
+func instName(inst any) string {
+	switch v := inst.(type) {
+	case nil:
+		return ""
+	case string:
+		return v
+	}
+	if !reflect.TypeOf(inst).Comparable() {
+		return fmt.Sprintf("%T", inst)
+	}
+	if n, ok := names[inst]; ok {
+		return n
+	}
+	nameN++
+	n := "o" + strconv.Itoa(nameN)
+	names[inst] = n
+	return n
+}
+
+// Trace records an event at a linearization point.
+func Trace(inst any, ev string, kv ...any) {
+	if !active.Load() {
+		return
+	}
+	m := make(map[string]any, len(kv)/2)
+	for i := 0; i+1 < len(kv); i += 2 {
+		v := kv[i+1]
+		if e, ok := v.(error); ok {
+			if e == nil {
+				v = ""
+			} else {
+				v = e.Error()
+			}
+		}
+		m[fmt.Sprint(kv[i])] = v
+	}
+	mu.Lock()
+	seq++
+	e := Event{Seq: seq, Inst: instName(inst), Ev: ev, KV: m}
+	if sink != nil {
+		sink(e)
+	}
+	if out != nil {
+		line := map[string]any{"seq": e.Seq, "inst": e.Inst, "ev": e.Ev}
+		for k, v := range m {
+			line[k] = v
+		}
+		b, _ := json.Marshal(line)
+		out.Write(append(b, '\n'))
+	}
+	mu.Unlock()
+}
+
+// Crash marks a point at which a simulated process crash may be injected.
+func Crash(point string) {
+	mu.Lock()
+	if crashAt == "" || point != crashAt {
+		mu.Unlock()
+		return
+	}
+	crashN++
+	hit := crashN == crashK
+	fn := crashFn
+	mu.Unlock()
+	if hit {
+		if fn != nil {
+			fn(point)
+			return
+		}
+		os.Exit(86)
+	}
+}
+
+// Gate marks a point at which a scheduler may hold the calling goroutine.
+func Gate(point string, kv ...any) {
+	if f, _ := gateFn.Load().(func(point string, kv ...any)); f != nil {
+		f(point, kv...)
+	}
+}
+
+// Fail reports whether a fault should be injected at the named point.
+func Fail(point string) bool {
+	if f, _ := failFn.Load().(func(point string) bool); f != nil {
+		return f(point)
+	}
+	return false
+}
